@@ -69,6 +69,56 @@ def one_session(rec, cfg, plan, other, sid=1):
     return first, rec.n
 
 
+def sized_reply(agent, cfg, req, total):
+    """a well-formed matching reply of (about) `total` octets"""
+    name = bytes(req.names[0]) if req.names else bytes([43, 6, 1, 2, 1, 1, 1, 0])
+    pad = max(0, total - 140)
+    d = agent.reply(cfg, req, [(name, ("octets", b"x" * pad))])
+    for _ in range(6):
+        pad += total - len(d)
+        if pad < 0:
+            break
+        d = agent.reply(cfg, req, [(name, ("octets", b"x" * pad))])
+        if len(d) == total:
+            break
+    while len(d) > total and pad > 0:          # block ciphers cannot hit every size: never above the requested one (4080 is what a receive takes)
+        pad -= 1
+        d = agent.reply(cfg, req, [(name, ("octets", b"x" * pad))])
+    return d
+
+
+def big_history(rec, cfg_a, cfg_b, plan):
+    """Two authenticated sessions take turns; each step: session `who` sends a request of n OIDs and receives a matching reply of
+    `rsize` octets (up to the 4080 the receive path takes).  The pooled buffers have by then held large datagrams at their start and
+    large requests at their end: the MAC of every request must still be the HMAC of that request with a zeroed field."""
+    first = rec.n
+    sess = {"a": rawdrv.RawSession(rec, cfg_a, sid=1), "b": rawdrv.RawSession(rec, cfg_b, sid=2)}
+    agents = {"a": ag.Agent(engine=cfg_a.engine), "b": ag.Agent(engine=cfg_b.engine)}
+    cfgs = {"a": cfg_a, "b": cfg_b}
+    for who, n, rsize in plan:
+        s, cfg = sess[who], cfgs[who]
+        op = "get" if n == 1 else "get_many"
+        w, exc = s.send(op, oids_n(n))
+        if w is None:
+            continue
+        req = ag.Request(cfg, w)
+        if req.broken:
+            continue
+        if rsize:
+            s.inject(sized_reply(agents[who], cfg, req, rsize))
+            s.recv(op)
+    for s in sess.values():
+        s.close()
+    return first, rec.n
+
+
+BIG_PLANS = [
+    [("a", 120, 3900), ("a", 120, 0), ("a", 150, 4080), ("a", 1, 0), ("a", 180, 3000), ("a", 200, 0)],
+    [("a", 1, 4080), ("b", 150, 0), ("b", 1, 4000), ("a", 190, 0), ("b", 100, 2500), ("a", 100, 0), ("b", 210, 0)],
+    [("a", 100, 2047), ("a", 100, 2049), ("a", 100, 0), ("b", 60, 4079), ("b", 60, 0), ("a", 60, 1500), ("a", 215, 0)],
+]
+
+
 def run(tier):
     chk = Check("C09", tier)
     thorough = tier == "thorough"
@@ -102,6 +152,13 @@ def run(tier):
         a = rec.n
         one_session(rec, cfg, [(sizes[j % len(sizes)], 5, 6) for j in range(4)], None)
         runs.append((a, rec.n, dict(alg="none", priv="none", kt="-", elen=6, ulen=10, idx=idx, plan=[])))
+    # large datagrams received before large requests are built (same session / another session of the pool)
+    bigpairs = [("md5", "none", "sha1", "none"), ("sha1", "none", "md5", "aes"), ("md5", "des", "sha1", "aes")]
+    for bi, (a1, p1, a2, p2) in enumerate(bigpairs if not thorough else bigpairs * 3):
+        for pi, plan in enumerate(BIG_PLANS):
+            ca, cb = make_cfg(a1, p1, "password", 9 + bi, 6, 300 + bi), make_cfg(a2, p2, ["master", "localized", "password"][(bi + pi) % 3], 17, 12, 400 + bi)
+            a, b = big_history(rec, ca, cb, plan)
+            runs.append((a, b, dict(alg=a1, priv=p1, kt="password", elen=9 + bi, ulen=6, idx=300 + bi, plan=[], big=dict(pair=[a1, p1, a2, p2], bi=bi, pi=pi))))
     # one password, sessions created back to back under alternating digests / ciphers (both orders): nothing derived from the password
     # under one digest may serve another
     for pi, pw in enumerate([b"one-password-for-all", b"maplesyrup"]):
@@ -160,6 +217,16 @@ def replay(path):
             print("VIOLATION property=C09 replay=%s" % path)
         return rc
     rec = trace.Recorder("c09-replay")
+    if info.get("big"):
+        a1, p1, a2, p2 = info["big"]["pair"]
+        bi, pi = info["big"]["bi"], info["big"]["pi"]
+        big_history(rec, make_cfg(a1, p1, "password", 9 + bi, 6, 300 + bi), make_cfg(a2, p2, ["master", "localized", "password"][(bi + pi) % 3], 17, 12, 400 + bi), BIG_PLANS[pi])
+        v = trace.validate("TraceSession.tla", c11.trace_cfg(PROPS), rec.close())
+        if v["accepted"] and not v["fails"]:
+            print("replay: accepted")
+            return 0
+        print("VIOLATION property=C09 replay=%s" % path)
+        return 1
     cfg = make_cfg(info["alg"], info["priv"], info["kt"], info["elen"], info["ulen"], info["idx"]) if info["alg"] != "none" else rawdrv.Cfg("v3", user="plainuser", engine=b"\x80\x00\x00\x01\x00\x09")
     other = rawdrv.RawSession(rec, scripts.std_cfgs()["v2c"], sid=2)
     one_session(rec, cfg, [tuple(p) for p in info["plan"]], other)
